@@ -2933,11 +2933,18 @@ func ruleA12(c *Ctx) {
 		}
 		return false
 	}
+	// the tuple: every load of the field, and every parameter of a module function that receives it
+	type src struct {
+		fn *ssa.Function
+		v  ssa.Value
+	}
+	var work []src
+	seenSrc := map[ssa.Value]bool{}
 	for _, fn := range c.P.Funcs {
 		if relPkg(fnPkgPath(fn)) != "starlark" {
 			continue
 		}
-		ord := 0
+		fn := fn
 		eachInstr(fn, func(in ssa.Instruction) {
 			ld, ok := in.(*ssa.UnOp)
 			if !ok || ld.Op != token.MUL {
@@ -2953,9 +2960,19 @@ func ruleA12(c *Ctx) {
 			if deref(fa.X.Type()).Underlying().(*types.Struct).Field(fa.Field).Name() != "defaults" {
 				return
 			}
+			if !seenSrc[ld] {
+				seenSrc[ld] = true
+				work = append(work, src{fn, ld})
+			}
+		})
+	}
+	ords := map[*ssa.Function]int{}
+	for wi := 0; wi < len(work); wi++ {
+		fn, ld := work[wi].fn, work[wi].v
+		{
 			refs := ld.Referrers()
 			if refs == nil {
-				return
+				continue
 			}
 			for _, r := range *refs {
 				var elem ssa.Value
@@ -2967,6 +2984,15 @@ func ruleA12(c *Ctx) {
 						continue
 					}
 					if cal := x.Call.StaticCallee(); cal != nil && cal.Name() == "Freeze" {
+						continue
+					}
+					if cal := x.Call.StaticCallee(); cal != nil && len(cal.Blocks) > 0 && relPkg(fnPkgPath(cal)) == "starlark" {
+						for ai, a := range x.Call.Args {
+							if a == ld && ai < len(cal.Params) && !seenSrc[cal.Params[ai]] {
+								seenSrc[cal.Params[ai]] = true
+								work = append(work, src{cal, cal.Params[ai]})
+							}
+						}
 						continue
 					}
 				case *ssa.Index:
@@ -2997,7 +3023,8 @@ func ruleA12(c *Ctx) {
 					}
 				}
 				n++
-				ord++
+				ords[fn]++
+				ord := ords[fn]
 				key := fmt.Sprintf("%s: use of Function.defaults #%d", fnName(fn), ord)
 				pos := c.P.Pos(r.Pos())
 				if elem == nil {
@@ -3110,7 +3137,7 @@ func ruleA12(c *Ctx) {
 					c.ok(key, pos, "tested against the sentinel; used only where the test said no")
 				}
 			}
-		})
+		}
 	}
 	c.note("%d uses of Function.defaults", n)
 }
